@@ -4,6 +4,17 @@ import vlib
 
 PID = "C15"
 
+CLAIM = dict(
+    text="Machine-checked Coq theorems over an executable model of names.rs and of the semver crate's parser and "
+         "ordering: the compatibility function is exactly the semver-track relation (iff), it is an equivalence, "
+         "the version order is total and version texts are injective, and after ANY insertion history the map "
+         "returns the exact entry else the highest on the track, independent of insertion order. The model is tied "
+         "to the code on every run by a 370k-case correspondence (all pairs of the property's universe).",
+    design_ref="DESIGN.md §5 C15",
+    note="Trusted: Coq kernel; extraction (ExtrOcamlBasic); OCaml driver; Rust harness; the models Semver.v/Names.v "
+         "are hand-written and validated by correspondence, not derived from the Rust source.",
+    technique="Coq proof (induction over insertion histories, Permutation) + extracted-model correspondence")
+
 
 def dec(s):
     return "" if s in ("-", "") else "".join(chr(int(x)) for x in s.split(","))
